@@ -42,6 +42,8 @@ class Interp(Engine):
             mod = None
         if mod is None:
             mod = self.cur_module
+        if mod is not None and (mod.name, name) in self.global_overrides:
+            return self.global_overrides[(mod.name, name)]
         if mod is not None:
             r = self.repo.lookup(mod, name)
             if r is not None:
@@ -137,6 +139,11 @@ class Interp(Engine):
         for a in node.names:
             nm = a.asname or a.name
             if nm in getattr(self.frame, "globals_declared", ()):
+                # `global X; from m import X`: rebinds the module global for the rest of the path
+                if target is not None:
+                    r = self.repo.lookup(target, a.name)
+                    if r is not None:
+                        self.global_overrides[(mod.name, nm)] = self.global_value(r, a.name, node)
                 continue
             if target is not None:
                 r = self.repo.lookup(target, a.name)
